@@ -318,7 +318,9 @@ package core
 //@   ghost-ensures lastRemId == id && lastRemProp == prop
 //@   also-modifies lastRemId, lastRemProp
 
+// RuleEnabled reads properties; it is assumed not to modify parsed rules (frame, not checked).
 //@ func (*Location).RuleEnabled
+//@   modifies allbut(F:core.Rule.)
 //@   ensures[C10.ruleenabled_reads_flag] result0 ==> lastGetId == id && lastGetProp == "disabled"
 //@   ensures[C10.ruleenabled_exact]      result0 ==> !(is(lastGetVal, bool) && lastGetVal.(bool))
 //@   ensures[C10.ruleenabled_location]   result0 ==> eok
@@ -675,8 +677,8 @@ package core
 //@ funcval (*Location).ExecAction.f
 //@   modifies allbut(LK:)
 //@ func (*Location).ExecAction
-//@   ensures[C04.action_thunk_runs_once] result1 == nil ==> calls(f) == old(calls(f)) + 1
-//@   ensures[C04.action_thunk_at_most_once] calls(f) <= old(calls(f)) + 1
+//@   ensures[C04.action_thunk_runs_once] result1 == nil ==> dyncalls() == old(dyncalls()) + 1
+//@   ensures[C04.action_thunk_at_most_once] dyncalls() <= old(dyncalls()) + 1
 
 //@ func (*FindRules).Do
 //@   assert[C04.child_carries_its_rule_id] at "append(w.Children, child)": rule.Id == id
@@ -684,7 +686,7 @@ package core
 
 //@ func (*EvalRule).Do
 //@   ensures[C04.one_condition_node_per_binding_set] len(w.Children) == len(w.Bindingss)
-//@   loop 1: invariant[C04.evalrule_loop] len(w.Children) == rangeindex + 1 && len(w.Bindingss) == old(len(w.Bindingss))
+//@   loop 1: invariant[C04.evalrule_loop] len(w.Children) == rangeindex + 1 && rangeindex < len(w.Bindingss) && len(w.Bindingss) == old(len(w.Bindingss))
 
 //@ func (*EvalRuleCondition).Do
 //@   assert[C04.event_bound_iff_absent]    at "bs[\"?event\"]": !has(bs, "?event")
